@@ -47,6 +47,9 @@ FAMILIES = {
     # two removal batches in one scan (force reaper, then grace reaper) with a terminate call failing midway, near the ASG minimum
     "batches": fam(EnvOn=["ExtForce", "ExtTaint"], FaultOps=["terminate", "delete"], MaxFaults=1, TaintKinds=["zero"],
                    cfg=dict(min=0, max=4), AsgMin0=2, AsgMax0=5, MaxPend=0, KC=1, KM=1, InitNodes=4, NodeIds=["a1", "a2", "a3", "a4"], emit=1),
+    # the process dies at every write of a scan (removal batches, taint writes, cloud requests); restart; next scan
+    "crash": fam(EnvOn=["ExtForce", "ExtTaint", "PodArrive", "Restart"], FaultOps=["crash"], MaxFaults=1, TaintKinds=["zero"],
+                 cfg=dict(min=0, max=4), AsgMin0=0, AsgMax0=5, MaxPend=1, KC=1, KM=1, InitNodes=3, NodeIds=["a1", "a2", "a3"], emit=8),
     # an operator edits the ASG bounds of a group whose min / max are configured (not discovered)
     "asgedit": fam(EnvOn=["Tick", "PodArrive", "PodFinish", "AsgEdit", "CloudLaunch", "Register"],
                    cfg=dict(min=0, max=2), AsgMin0=0, AsgMax0=3, AsgBoundsSet=[[0, 1], [0, 2], [0, 3], [0, 4]], MaxPend=3, InitNodes=1),
@@ -78,7 +81,7 @@ TIER_OVERRIDES = {
     ("reap", "quick"): dict(KC=1, KM=1, EnvOn=["Tick", "PodArrive", "PodSchedule", "PodFinish", "ExtTaint"], TaintKinds=["now", "bad"]),
     ("force", "quick"): dict(KC=1, KM=1, EnvOn=["Tick", "PodArrive", "PodSchedule", "PodFinish", "ExtForce", "ExtTaint"], TaintKinds=["now"], FaultOps=["terminate"]),
     ("reap", "thorough"): dict(KC=1, KM=1, EnvOn=["Tick", "PodArrive", "PodSchedule", "PodFinish", "ExtTaint", "Restart", "NodeGone"], TaintKinds=["now", "bad", "zero"]),
-    ("force", "thorough"): dict(KC=1, KM=1, EnvOn=["Tick", "PodArrive", "PodSchedule", "PodFinish", "ExtForce", "ExtUnforce", "ExtTaint", "Restart"], TaintKinds=["now"], FaultOps=["terminate", "delete"]),
+    ("force", "thorough"): dict(KC=1, KM=1, EnvOn=["Tick", "PodArrive", "PodSchedule", "PodFinish", "ExtForce", "ExtUnforce", "ExtTaint", "Restart"], TaintKinds=["now"], FaultOps=["terminate", "delete", "crash"]),
     ("annot", "quick"): dict(KC=1, KM=1),
     ("cordon", "quick"): dict(KC=1, KM=1, EnvOn=["Tick", "PodArrive", "PodSchedule", "PodFinish", "Cordon", "Uncordon", "ExtTaint", "ExtForce"]),
     ("lock", "quick"): dict(KC=1, KM=1, MaxPend=1, EnvOn=["Tick", "PodArrive", "PodFinish", "CloudLaunch", "Register", "Cordon", "ExtForce", "Restart"]),
